@@ -5,6 +5,7 @@ package main
 
 import (
 	"fmt"
+	"os"
 	"regexp"
 	"runtime"
 	"sort"
@@ -213,12 +214,17 @@ func blockingState(st string) bool {
 // (a reconnect that happens to arrive at the same moment would otherwise colour the picture).
 func analyseOpen(gid string) Blocked {
 	var b Blocked
+	var d string
 	for i := 0; i < 8; i++ {
-		b = analyseBlocked(fullDump(), gid)
+		d = fullDump()
+		b = analyseBlocked(d, gid)
 		if !b.Transient {
 			break
 		}
 		time.Sleep(150 * time.Millisecond)
+	}
+	if dir := os.Getenv("C17_DUMPDIR"); dir != "" { // debugging aid
+		os.WriteFile(fmt.Sprintf("%s/dump-%d-g%s.txt", dir, os.Getpid(), gid), []byte(d), 0o644)
 	}
 	return b
 }
@@ -259,11 +265,12 @@ func analyseBlocked(dump, gid string) Blocked {
 		if g.id == gid {
 			continue
 		}
-		// outermost repository frame of g that has the same receiver as a frame of the blocked caller
+		// innermost repository frame of g that has the same receiver as a frame of the blocked caller
 		hit := ""
 		for _, f := range g.frames {
 			if strings.HasPrefix(f.fn, repoPrefix) && ptrs[firstArg(f.args)] {
 				hit = shortFn(f.fn)
+				break
 			}
 		}
 		if hit == "" {
